@@ -183,7 +183,12 @@ def cadence_case(cfgname, fault, n, defer=False):
             tr = w.accept()
             w.deliver(peer_open(), tr)
             w.deliver(KEEPALIVE, tr)
-            if fault == 'peer-close':
+            if fault.startswith('noti:'):
+                c_, s_ = fault.split(':')[1:]
+                w.deliver(S.frame(3, bytes([int(c_), int(s_)])), tr)
+                if tr.connected and not tr.disconnecting:
+                    w.peer_close(tr, clean=True)
+            elif fault == 'peer-close':
                 w.peer_close(tr, clean=True)
             elif fault == 'cease':
                 w.deliver(S.MSGS['NOTI_CEASE'][0], tr)
@@ -254,6 +259,15 @@ def run_shard(sh):
                     res['distinct'].append('cadence|%s|%s|%s' % (cfgname, fault, defer))
                     for v in V:
                         viol.setdefault((v['kind'], tuple(v['features'])), dict(v, replay=dict(cadence=[cfgname, fault, sh['n'], defer])))
+        # every NOTIFICATION code / sub-code the RFCs define (and a few they do not) ends the session - and only that session
+        for c_ in range(1, 9):
+            for s_ in range(0, 12):
+                V, seen = cadence_case('small', 'noti:%d:%d' % (c_, s_), 6)
+                total += seen
+                res['evaluations'] += 1
+                res['distinct'].append('cadence|noti|%d|%d' % (c_, s_))
+                for v in V:
+                    viol.setdefault((v['kind'], tuple(v['features'])), dict(v, replay=dict(cadence=['small', 'noti:%d:%d' % (c_, s_), 6, False])))
         res['counters'] = dict(cadence_attempts_observed=total)
         res['violations'] = list(viol.values())
         res['sets']['peer_holds'] = [sh['peer_hold']]
